@@ -111,13 +111,27 @@ def run(case, seed):
     dt_arg = dt if dt.imag != 0 else float(dt.real)
     if case.get("dtform") == "complex0" and dt.imag == 0:
         dt_arg = complex(dt.real, 0.0)
+    vin = v.copy()                      # the caller's array: handed to the routine as it is, must come back untouched
     with warnings.catch_warnings(record=True) as wl:
         warnings.simplefilter("always")
         try:
-            res, it = K.expm_krylov(lambda x: A @ x, dt_arg, v.copy(), bs)
+            res, it = K.expm_krylov(lambda x: A @ x, dt_arg, vin, bs)
         except Exception as e:                                  # noqa
             out["error"] = type(e).__name__ + ": " + str(e)[:100]
             return out
+    out["input_unchanged"] = bool(vin.dtype == v.dtype and vin.shape == v.shape and vin.tobytes() == v.tobytes())
+    first_calls = list(CALLS)
+    # the same (unnormalised) array used again: a second call must give the same answer
+    out["second_call_err"] = None
+    try:
+        with warnings.catch_warnings():
+            warnings.simplefilter("ignore")
+            res2, it2 = K.expm_krylov(lambda x: A @ x, dt_arg, vin, bs)
+        out["second_call_err"] = float(np.linalg.norm(np.asarray(res2) - ref) / (np.linalg.norm(v) * amp))
+        out["second_call_it"] = int(it2)
+    except Exception as e:                                      # noqa
+        out["second_call_err"] = "raised " + type(e).__name__
+    CALLS[:] = first_calls
     out["warn"] = sorted(set(x.category.__name__ for x in wl))
     last = CALLS[-1]
     out["exit"] = last["site"]
